@@ -76,10 +76,37 @@ func validCase(c *hc.Ctx, grids []*Grid, maxW int64) (*Grid, [][]Pt, string) {
 				continue
 			}
 		}
+		if g.Dyadic && g.Res >= 16 && c.Rng.Intn(5) == 0 {
+			// decimal-like input: some ordinates one integer unit below (or exactly on) a pixel border, and every float
+			// handed to the implementation carries a fraction of 0.6 units that FromGeomOrd truncates away
+			gb := *g
+			gb.Bias = true
+			q := clonePoly(poly)
+			for _, ring := range q {
+				for k := range ring {
+					if c.Rng.Intn(3) == 0 {
+						ax := c.Rng.Intn(2)
+						b := g.Ext[ax] + ((ring[k][ax]-g.Ext[ax]+g.Res/2)/g.Res)*g.Res // nearest pixel border
+						ring[k][ax] = b - int64(c.Rng.Intn(2))
+					}
+				}
+			}
+			if gb.inGrid(q) && validPolygon(q) {
+				return &gb, q, kind + "+subunit"
+			}
+		}
 		if g.inGrid(poly) {
 			return g, poly, kind
 		}
 	}
+}
+
+func clonePoly(p [][]Pt) [][]Pt {
+	out := make([][]Pt, len(p))
+	for i := range p {
+		out[i] = append([]Pt{}, p[i]...)
+	}
+	return out
 }
 
 // collapsingCase: a valid polygon with many sub-pixel teeth, requested at a coarse tile matrix as well.
